@@ -81,11 +81,79 @@ MCNext == PublishAccepted \/ PublishRejected \/ PublishRecreate \/ StartDelivery
 MCSpec == MCInit /\ [][MCNext]_mcvars
 
 ---------------------------------------------------------------------------
+(* A targeted family of 5-operation histories ("re-add concurrent with a   *)
+(* change of access"), beyond the general bound MaxOps:                    *)
+(*                                                                         *)
+(*      1 create {a: Manage, c: Manage, b: <level>}                         *)
+(*      branch 1 (deps 1):  a promotes / demotes b to some level  (optional)*)
+(*      branch 2 (deps 1):  c removes b;  then c re-adds b with some level  *)
+(*      attempt (deps = both branches): any action by b                     *)
+(*                                                                         *)
+(* remove and re-add reset b's access counter while branch 1 raised it on  *)
+(* the OLD membership: the state at the attempt's dependencies is a merge  *)
+(* in which the newer membership (higher member counter) must win.         *)
+ShapeTarget == "b"
+ShapeOther == "c"
+InitialACb == ("a" :> Acc(NoC, Manage)) @@ ("c" :> Acc(NoC, Manage)) @@ ("b" :> Acc(NoC, Read))
+InitialACbm == ("a" :> Acc(NoC, Manage)) @@ ("c" :> Acc(NoC, Manage)) @@ ("b" :> Acc(NoC, Manage))
+ArgsAll4 == {Acc(NoC, Pull), Acc(NoC, Read), Acc(NoC, Write), Acc(NoC, Manage)}
+ArgsPRM == {Acc(NoC, Pull), Acc(NoC, Read), Acc(NoC, Manage)}
+
+CONSTANT ShapeAttempts     \* TRUE: the model also publishes b's attempt and delivers the history
+
+ShapeInit == Init /\ phase = "s1"
+
+ShapeModify ==
+    /\ phase = "s1" /\ phase' = "s2"
+    /\ \/ UNCHANGED vars                                   \* no branch 1
+       \/ LET cur == StateOfView({1}) IN
+          \E kind \in {"promote", "demote"}, acc \in AccessArgs :
+             /\ VerdictIn(cur, Creator, kind, ShapeTarget, acc)
+             /\ Publish({1}, cur, Creator, kind, ShapeTarget, acc)
+
+ShapeRemove ==
+    /\ phase = "s2" /\ phase' = "s3"
+    /\ LET cur == StateOfView({1}) IN
+       /\ VerdictIn(cur, ShapeOther, "remove", ShapeTarget, Acc(NoC, Pull))
+       /\ Publish({1}, cur, ShapeOther, "remove", ShapeTarget, Acc(NoC, Pull))
+
+ShapeReadd ==
+    /\ phase = "s3" /\ phase' = "s4"
+    /\ LET D == {1, Len(ops)}                              \* the create and the remove
+           cur == StateOfView(D) IN
+       \E acc \in AccessArgs :
+          /\ VerdictIn(cur, ShapeOther, "add", ShapeTarget, acc)
+          /\ Publish(D, cur, ShapeOther, "add", ShapeTarget, acc)
+
+\* b's attempt from the view of everything (accepted or refused), then delivery
+ShapeAttempt ==
+    /\ phase = "s4" /\ ShapeAttempts /\ phase' = "s5"
+    /\ LET cur == StateOfView(OkIds) IN
+       \E kind \in Kinds, member \in Actor : \E acc \in ArgsOf(kind) :
+          Publish(OkIds, cur, ShapeTarget, kind, member, acc)
+
+ShapeStartDelivery == phase = "s5" /\ phase' = "dlv" /\ UNCHANGED vars
+
+ShapeTerminated ==
+    /\ \/ phase = "dlv" /\ \A r \in Replica : delivered[r] \cup rejected[r] = Ids
+       \/ phase = "s4" /\ ~ShapeAttempts
+    /\ UNCHANGED mcvars
+
+ShapeNext == ShapeModify \/ ShapeRemove \/ ShapeReadd \/ ShapeAttempt \/ ShapeStartDelivery \/ DeliverAccepted \/ DeliverRejected \/ ShapeTerminated
+ShapeSpec == ShapeInit /\ [][ShapeNext]_mcvars
+
+\* vacuity: the family contains a history in which b's access was changed concurrently with its re-add
+\* and an attempt by b that the specification refuses
+ShapeReachedRefusedAttempt == phase = "dlv" /\ Len(ops) = 5 /\ ~ops[5].ok
+ShapeNeverRefusedAttempt == ~ShapeReachedRefusedAttempt
+
+---------------------------------------------------------------------------
 C31_Convergence == Convergence
 C31_IncrementalEqualsRebuild == IncrementalEqualsRebuild
 C31_VerdictsAgree == VerdictsAgree
 \* operations do not change during delivery, and earlier operations were checked in the predecessor state
-C33_OnlyAuthorized == (phase = "pub" /\ ops[Len(ops)].ok) => Authorized(Len(ops))
+C33_OnlyAuthorized == (phase # "dlv" /\ ops[Len(ops)].ok) => Authorized(Len(ops))
+C33_OnlyAuthorizedAll == OnlyAuthorizedPublished
 C33_MembersHaveOrigin == MembersHaveOrigin
 C33_RejectLeavesUnchanged ==
     [][\A r \in Replica : rejected'[r] # rejected[r] => (delivered'[r] = delivered[r] /\ st'[r] = st[r])]_mcvars
@@ -129,7 +197,7 @@ AcceptsJson ==
                     /\ VerdictIn(cur, u[1], u[2], u[3], u[4])}}
 
 ExportHistory ==
-    phase = "pub" =>
+    phase # "dlv" =>
     PrintT(<<"REPLAY",
              ToJson([kind |-> "history",
                      initial |-> {[m |-> m, c |-> Initial[m].c, l |-> Initial[m].l] : m \in DOMAIN Initial},
